@@ -408,7 +408,80 @@ impl Expr {
         }
     }
 }
+impl Expr {
+    /// every variable name occurring in or bound by the expression (not the names in call position)
+    pub fn var_names(&self, out: &mut Vec<String>) {
+        match self {
+            Expr::Lit(_) => {}
+            Expr::Var(n) => out.push(n.clone()),
+            Expr::Prim(_, a) | Expr::List(a) => a.iter().for_each(|x| x.var_names(out)),
+            Expr::Call(_, a, r) => {
+                a.iter().for_each(|x| x.var_names(out));
+                if let Some(x) = r {
+                    x.var_names(out);
+                }
+            }
+            Expr::If(a, b, c) => {
+                a.var_names(out);
+                b.var_names(out);
+                c.var_names(out);
+            }
+            Expr::Let(_, bs, body) => {
+                for (n, e) in bs {
+                    out.push(n.clone());
+                    e.var_names(out);
+                }
+                body.var_names(out);
+            }
+            Expr::Assign(bs, body) => {
+                for (p, e) in bs {
+                    p.names(out);
+                    e.var_names(out);
+                }
+                body.var_names(out);
+            }
+            Expr::Lambda(caps, pat, body) => {
+                out.extend(caps.iter().cloned());
+                pat.names(out);
+                body.var_names(out);
+            }
+            Expr::Apply(f, a) => {
+                f.var_names(out);
+                a.var_names(out);
+            }
+            Expr::Mod(p) => out.extend(p.var_names()),
+        }
+    }
+}
+
 impl Program {
+    /// the variable names of the program: parameters of the program and of its functions, and every binder
+    pub fn var_names(&self) -> Vec<String> {
+        let mut out = vec![];
+        self.args.names(&mut out);
+        for h in &self.helpers {
+            match h {
+                Helper::Defun { pat, body, .. } => {
+                    pat.names(&mut out);
+                    body.var_names(&mut out);
+                }
+                Helper::DefConst { expr, .. } => expr.var_names(&mut out),
+                Helper::DefMacro { params, template, .. } => {
+                    out.extend(params.iter().cloned());
+                    template.var_names(&mut out);
+                }
+                Helper::DefConstant { .. } => {}
+            }
+        }
+        self.body.var_names(&mut out);
+        out.sort();
+        out.dedup();
+        // (function and constant names used as values are not variables)
+        let helper_names: Vec<String> = self.helpers.iter().map(|h| h.name().to_string()).collect();
+        out.retain(|n| !helper_names.contains(n));
+        out
+    }
+
     /// rename variables (not helper names) everywhere
     pub fn rename_vars(&self, f: &dyn Fn(&str) -> String) -> Program {
         Program {
